@@ -552,6 +552,24 @@ def PForest.commentsOneLine : PForest → Bool
   | .tok _ _ r => r.commentsOneLine
   | .node l k r => (if isComment l then !(k.tokens.any (·.contains 10)) else k.commentsOneLine) && r.commentsOneLine
 
+/-! ### blocks with no content
+
+/-- labels of the nodes that are printed as `keyword { … }` (obligation `brace_labels_are_blocks`: exactly the block
+productions the generator can reach) -/
+def braceLabels : List Bytes :=
+  [b "http_get", b "http_post", b "stage", b "process_inject", b "dns_beacon", b "http_beacon", b "client", b "server",
+   b "output", b "metadata", b "id", b "transform_x86", b "transform_x64", b "execute", b "beacon_gate"]
+
+def braceLabel : Option Bytes → Bool
+  | some x => braceLabels.contains x
+  | Option.none => false
+
+/-- no `{ }` block of the forest (at any depth) is empty -/
+def noEmptyBlocks : PForest → Bool
+  | .nil => true
+  | .tok _ _ r => noEmptyBlocks r
+  | .node l ks r => (!braceLabel l || !ks.isEmpty) && noEmptyBlocks ks && noEmptyBlocks r
+
 /-! ### `as_dict` read off the tree (declarative projection; C11's subject is that the token walk computes it)
 
 A statement is filed under the keywords of the enclosing blocks (`stack`) and its own keyword, all taken from the
